@@ -117,13 +117,17 @@ def run(ctx, rep):
                 def hga(o_, n_, asked=asked):
                     asked.append((o_, n_))
                     return exit_fn
+                if exc is not None:
+                    exc.mi_traceback = "EXC-TB"
                 try:
+                    # the triple of the exception in flight, however it is obtained (sys.exc_info() or type(e), e, e.__traceback__)
                     got = MIx.call_method(hx.node, {}, ["TARGET", exc], {"__calls__": {
-                        "self._handle_getattr": hga, "sys.exc_info": lambda: ("EXC-TYPE", "EXC-VALUE", "EXC-TB")}})
+                        "self._handle_getattr": hga, "sys.exc_info": lambda exc=exc: ("EXC-TYPE", exc, "EXC-TB"),
+                        "type": lambda o_, exc=exc: "EXC-TYPE" if o_ is exc else "type-of-%r" % (o_,)}})
                     res = ("value", got)
                 except MIx.Raised as r_:
                     res = ("raise", r_.name)
-                want_args = (None, None, None) if exc is None else ("EXC-TYPE", "EXC-VALUE", "EXC-TB")
+                want_args = (None, None, None) if exc is None else ("EXC-TYPE", exc, "EXC-TB")
                 if res != ("value", "EXIT-ANSWER") or calls_x != [want_args] or asked != [("TARGET", "__exit__")]:
                     bad_x.append("%s: handler %s, __exit__ called with %s" % (
                         label, "returns %r" % (res[1],) if res[0] == "value" else "raises %s" % res[1], calls_x))
